@@ -15,7 +15,7 @@
 -/
 import Y0.Lemmas.IdTotal
 
-namespace Y0
+namespace Y0.IdCongr
 open IdDsl IdAux MG Relation
 
 /-- same node set, same directed edges, same bidirected edges (up to orientation): `NxMixedGraph.__eq__` -/
@@ -499,4 +499,4 @@ theorem identify_isOk_congr {t1 t2 : MG Name → Except Err (List Name)} (ht1 : 
   exact idAlg_isOk_congr ht1 ht2 ⟨hq.wf, hq.ranked, hq.ysub, hq.yne, hq.disj, hp1⟩
     ⟨hq'.wf, hq'.ranked, hq'.ysub, hq'.yne, hq'.disj, hp2⟩ ⟨hg, hx, hy⟩
 
-end Y0
+end Y0.IdCongr
